@@ -2,4 +2,6 @@ From Coq Require Import Extraction ExtrOcamlBasic List NArith ZArith.
 From BioVerif Require Import Lib.Conv Model.ISISCodec.
 Extraction Language OCaml.
 Extraction "c30_model.ml" conv_anchor decode decode_l2 enc_packet enc_body
-  lsp_update_length lsp_set_checksum new_csnps new_psnps.
+  lsp_update_length lsp_set_checksum new_csnps new_psnps
+  new_area_tlv new_dynhost_tlv new_proto_tlv new_ipif_tlv new_entries_tlv new_p2padj_tlv new_padding_tlv new_terid_tlv
+  new_extis_nbr new_extis_tlv new_extip_tlv.
